@@ -21,6 +21,7 @@ func init() {
 		Assumptions: []string{"the store semantics of nats.go v1.47.0 / nats-server v2.12.2 are trusted, not analysed"},
 		Rules: map[string]string{
 			"R1": "for every type implementing Watcher: a MakeChan or go statement in Updates() is inside a function passed to sync.Once.Do (or guarded by a nil check of the field it initialises), OR no call site of Watcher.Updates lies in a CFG cycle; the implementations must agree",
+			"R4": "every send in a goroutine started by a Watcher implementation's Updates is a state of a select that also receives from a channel closed (builtin close) in that type's Stop: a watcher stopped with undelivered entries leaves no goroutine behind",
 			"R3": "in the forwarding goroutine(s) of every Watcher.Updates implementation every send to the adapter's channel is blocking (a plain send or a select without default)",
 			"R2": "each method M of an adapter type wrapping a store object calls exactly one method named M on the wrapped object, passes its own parameters (key, value, rev) in the same positions, and its results flow to the return values",
 		},
@@ -31,6 +32,7 @@ func checkC14(c *Ctx) {
 	watcherUpdatesRule(c, "R1")
 	adapterForwardingRule(c, "R2")
 	watchForwardingRule(c, "R3")
+	watchForwarderReleaseRule(c, "R4")
 }
 
 // watchForwardingRule: the goroutine that forwards watch entries never drops one: every
@@ -61,6 +63,101 @@ func watchForwardingRule(c *Ctx, rule string) {
 		}
 		c.check(nSend > 0, rule, "forwarding goroutine of "+n.Obj().Name()+" sends what it receives", firstInstr(up), "%d send sites", nSend)
 	}
+}
+
+// watchForwarderReleaseRule (C14-R4): a watcher stopped while entries are undelivered does not
+// leave its forwarding goroutine behind: every send of the goroutine is a case of a select that
+// also receives from a channel which the type's Stop method closes.
+func watchForwarderReleaseRule(c *Ctx, rule string) {
+	m := c.M
+	for _, n := range m.implementers(m.WatcherIface) {
+		up, stop := m.methodOf(n, "Updates"), m.methodOf(n, "Stop")
+		if up == nil || stop == nil {
+			continue
+		}
+		// channels (fields of the type) closed by Stop
+		closed := map[string]bool{}
+		for _, g := range m.reachWithFuncArgs(stop) {
+			eachInstr(g, func(in ssa.Instruction) {
+				call, ok := in.(*ssa.Call)
+				if !ok {
+					return
+				}
+				if b, isB := call.Call.Value.(*ssa.Builtin); isB && b.Name() == "close" && len(call.Call.Args) == 1 {
+					closed[m.Sym.Of(m.traceValue(call.Call.Args[0])).String()] = true
+				}
+			})
+		}
+		nSend := 0
+		for _, g := range m.reachWithFuncArgs(up) {
+			if g == up || !m.insideGoroutineOf(g, up) {
+				continue
+			}
+			eachInstr(g, func(in ssa.Instruction) {
+				switch x := in.(type) {
+				case *ssa.Send:
+					nSend++
+					c.viol(rule, fmt.Sprintf("send #%d of the forwarding goroutine of %s can be abandoned on Stop", nSend, n.Obj().Name()), in,
+						"a plain blocking send: if the consumer has stopped reading and calls Stop, the goroutine stays blocked here for ever (it never sees the source channel close) - one leaked goroutine per watcher stopped with a backlog")
+				case *ssa.Select:
+					hasSend := false
+					for _, st := range x.States {
+						if st.Dir == types.SendOnly {
+							hasSend = true
+						}
+					}
+					if !hasSend {
+						return
+					}
+					nSend++
+					released := ""
+					for _, st := range x.States {
+						if st.Dir == types.RecvOnly {
+							if s := m.Sym.Of(m.traceValue(st.Chan)).String(); closed[s] {
+								released = s
+							}
+						}
+					}
+					c.check(released != "", rule, fmt.Sprintf("send #%d of the forwarding goroutine of %s can be abandoned on Stop", nSend, n.Obj().Name()), in,
+						"the select receives from a channel closed by %s.Stop: %q (channels closed by Stop: %v)", n.Obj().Name(), released, keysOf(closed))
+				}
+			})
+		}
+		if nSend == 0 {
+			c.undecided(rule, "forwarding goroutine of "+n.Obj().Name(), firstInstr(up), "no send found in a goroutine started by Updates")
+		}
+	}
+	c.floor(rule, 2)
+}
+
+func keysOf(m map[string]bool) []string {
+	var out []string
+	for k := range m {
+		out = append(out, k)
+	}
+	sort.Strings(out)
+	return out
+}
+
+// insideGoroutineOf: g runs on a goroutine started (directly or indirectly) from root, not on
+// root's own goroutine.
+func (m *Model) insideGoroutineOf(g, root *ssa.Function) bool {
+	if m.staticReach(root, false)[g] {
+		// reachable by plain calls: also check closures called synchronously (Once.Do bodies)
+		return false
+	}
+	for _, sp := range m.Spawns() {
+		for _, t := range sp.Targets {
+			if t == g || m.staticReach(t, false)[g] {
+				for _, h := range m.reachWithFuncArgs(root) {
+					if h == sp.Fn {
+						return true
+					}
+				}
+			}
+		}
+	}
+	return false
 }
 
 // implementers returns the named struct types of the library whose pointer implements iface.
